@@ -8,12 +8,15 @@ props = sys.argv[2:] or [meta['property']]
 def sh(cmd):
     return subprocess.run(cmd, shell=True, capture_output=True, text=True)
 for prop in props:
-    assert sh('git -C /repo apply %s/patch.diff' % d).returncode == 0, 'patch does not apply'
+    wt = '/tmp/wt/recheck_%s_%s' % (name, prop)     # a scratch worktree with the change applied; /repo is not touched
+    sh('git -C /repo worktree remove --force %s' % wt)
+    assert sh('git -C /repo worktree add -q --detach %s HEAD' % wt).returncode == 0
     try:
-        c = sh('cd /verif && ./check %s --tier quick' % prop)
+        assert sh('git -C %s apply %s/patch.diff' % (wt, d)).returncode == 0, 'patch does not apply'
+        c = sh('cd /verif && VERIF_REPO=%s ./check %s --tier quick' % (wt, prop))
     finally:
-        sh('git -C /repo checkout -- elftools scripts')
-        sh('cd /verif && git checkout -q -- evidence')
+        sh('git -C /repo worktree remove --force %s' % wt)
+        sh('cd /verif && git checkout -q -- evidence/%s.json' % prop)
     keys = re.findall(r'key=(.*?) count=', c.stdout)
     det = c.returncode == 1
     print(name, prop, 'exit', c.returncode, keys[:2])
